@@ -129,7 +129,11 @@ type EnumConfig struct {
 	Budget  time.Duration // wall-clock cap; hitting it => Exhaustive=false
 	MaxViol int
 	InProc  bool
-	Limit   int64 // evaluate only the first Limit cases (0 = all); sets Exhaustive=false when it cuts
+	// CrashIsViolation: a worker process that dies while evaluating a case (fatal
+	// runtime error such as out of memory, unrecoverable fault) is reported as a
+	// violation of that case instead of a harness error.
+	CrashIsViolation bool
+	Limit            int64 // evaluate only the first Limit cases (0 = all); sets Exhaustive=false when it cuts
 }
 
 // EnumStats aggregates an enumeration.
@@ -228,12 +232,21 @@ func Enumerate(cfg EnumConfig) *EnumStats {
 			}
 			var r enumResult
 			if err := w.call(jobs[i], &r); err != nil {
+				if cfg.CrashIsViolation {
+					if v := isolateCrash(jobs[i]); v != nil {
+						mu.Lock()
+						st.Violations = append(st.Violations, *v)
+						st.Exhaustive = false
+						mu.Unlock()
+						return errWorkerRestart
+					}
+				}
 				return fmt.Errorf("enum job %d [%d,%d): %v", i, jobs[i].Lo, jobs[i].Hi, err)
 			}
 			absorb(jobs[i], r)
 			return nil
 		})
-		if err != nil {
+		if err != nil && err != errWorkerRestart {
 			st.Errors = append(st.Errors, "worker failure: "+err.Error())
 			st.Exhaustive = false
 		}
@@ -264,3 +277,39 @@ func ReplayEnum(v *Violation) string {
 
 // IsEnum reports whether name is a registered enumeration.
 func IsEnum(name string) bool { _, ok := enums[name]; return ok }
+
+var errWorkerRestart = fmt.Errorf("worker died on a case (reported as violation)")
+
+// isolateCrash finds, by bisection in fresh worker processes, the first case
+// of the job's range that kills the evaluating process, and confirms it.
+func isolateCrash(j enumJob) *Violation {
+	dies := func(lo, hi int64) bool {
+		w, err := startWorker()
+		if err != nil {
+			return false
+		}
+		defer w.stop()
+		var r enumResult
+		jj := j
+		jj.Lo, jj.Hi, jj.Deadline = lo, hi, 0
+		return w.call(jj, &r) != nil
+	}
+	lo, hi := j.Lo, j.Hi
+	if !dies(lo, hi) {
+		return nil // not reproducible: leave it a harness error
+	}
+	for hi-lo > 1 {
+		mid := lo + (hi-lo)/2
+		if dies(lo, mid) {
+			hi = mid
+		} else {
+			lo = mid
+		}
+	}
+	if !dies(lo, lo+1) {
+		return nil
+	}
+	return &Violation{Scenario: j.Name, Param: j.Param, Choices: []int{int(lo)},
+		Failure: fmt.Sprintf("the process evaluating case %d died (fatal runtime error: out of memory, unrecoverable fault or exit); reproduced twice in fresh processes", lo),
+		Key:     fmt.Sprintf("process-death:%s:%d", j.Name, lo)}
+}
